@@ -225,6 +225,16 @@ func prepare(pc *propCfg) *buildInfo {
 				}
 				trouble("lexer generator failed on fixture %s:\n%s", name, o)
 			}
+			if strings.HasPrefix(name, "Opt") {
+				// the generator accepted it: does what it wrote compile?  (For definitions with
+				// back-references the unchanged generator writes code that does not.)
+				if o, err := run(root, env, "go", "build", "./verifsim/gen"); err != nil {
+					_ = o
+					os.Remove(filepath.Join(genDir, strings.ToLower(name)+".go"))
+					optionalRejected = append(optionalRejected, name)
+					continue
+				}
+			}
 			generatedOK = append(generatedOK, name)
 		}
 	}
@@ -382,6 +392,8 @@ type agg struct {
 	MapShuffles  int64             `json:"map_shuffles"`
 	Uncontrolled int64             `json:"uncontrolled_map_ranges"`
 	Stalled      bool              `json:"stalled"`
+	SlowestRunS  float64           `json:"slowest_run_seconds"`
+	SlowestRun   int64             `json:"slowest_run_index"`
 	FirstSeed    uint64            `json:"first_seed"`
 	LastSeed     uint64            `json:"last_seed"`
 	RaceReports  int64             `json:"race_reports"`
@@ -534,6 +546,9 @@ func (m *merged) add(a *agg) {
 	m.Uncontrolled += a.Uncontrolled
 	m.RaceReports += a.RaceReports
 	m.Stalled = m.Stalled || a.Stalled
+	if a.SlowestRunS > m.SlowestRunS {
+		m.SlowestRunS, m.SlowestRun = a.SlowestRunS, a.SlowestRun
+	}
 	m.Instrumented = a.Instrumented
 	m.Race = a.Race
 	if m.FirstSeed == 0 {
